@@ -152,13 +152,19 @@ func (x *XObject) Count() int {
 // Get retrieves the named property
 func (x *XObject) Get(key string) (XValue, bool) {
 	key = strings.ToLower(key)
+
+	// property names are matched ignoring case, so more than one can match.. always pick the first in sorted order
+	// rather than whichever the map happens to yield first
+	var found XValue
+	var foundName string
+	exists := false
 	for p, v := range x.properties() {
-		if strings.ToLower(p) == key {
-			return v, true
+		if strings.ToLower(p) == key && (!exists || p < foundName) {
+			found, foundName, exists = v, p, true
 		}
 	}
 
-	return nil, false
+	return found, exists
 }
 
 // Properties returns the sorted property names of this object
